@@ -56,8 +56,15 @@ def oracle_bands(rows, n, kind='plain', cols=3):
         data = img
         if kind == 'cube':
             data = img[None, :, :]
+        if kind == 'scaled':
+            hdr['BSCALE'] = 0.5      # stored values are physical / 0.5
         fn = os.path.join(d, 'a.fits')
-        fits.PrimaryHDU(data, header=hdr).writeto(fn)
+        if kind == 'scaled':
+            fits.PrimaryHDU((data / 0.5).astype(np.float32), header=hdr).writeto(fn)
+            with fits.open(fn, mode='update', do_not_scale_image_data=True) as hl_:
+                hl_[0].header['BSCALE'] = 0.5
+        else:
+            fits.PrimaryHDU(data, header=hdr).writeto(fn)
         if kind == 'compressed':
             cfn = os.path.join(d, 'c.fits')
             ft.compress(fn, 2, cfn)
@@ -307,7 +314,7 @@ def k_validate(rep, seed):
     """executor validation / property-level runs of the real function for a few (rows, n) incl. the classic rounding pairs"""
     import random
     rng = random.Random(seed)
-    cases = [(4, 49, 'plain'), (115, 7, 'plain'), (10, 3, 'cube'), (9, 2, 'compressed')] + [(rng.randint(1, 300), rng.randint(1, 64), 'plain') for _ in range(6)]
+    cases = [(4, 49, 'plain'), (115, 7, 'plain'), (10, 3, 'cube'), (9, 2, 'compressed'), (11, 4, 'scaled')] + [(rng.randint(1, 300), rng.randint(1, 64), 'plain') for _ in range(6)]
     rep.kernel('K-replay-oracle', functions=[F + ':load_image_band', F + ':compress', F + ':expand'], bounds='%d concrete (rows, n, kind) cases through real FITS I/O' % len(cases),
                assumes=['pixel equality for plain/cube/compressed files is plumbing through astropy: checked on concrete files only (not solver-decided)'])
     for R, N, kind in cases:
